@@ -12,11 +12,13 @@ ID = "C15"
 MIN_NONTRIVIAL = 0.35
 RULE = ("Hypothesis: 1-4 well-formed sequences over a shared pool of 2 channels x 2-3 pitches (so that overlapping, abutting, "
         "nested and identical notes of one key across inputs are frequent), different lengths, empty sequences, trailing "
-        "rests, any construction route; time/key signature events at ticks distinct per kind across the inputs; receiver = "
+        "rests, any construction route; time/key signature events at ticks distinct per kind across the inputs, or (a third of the multi-input cases) several inputs "
+        "carrying a signature of one kind on the same tick with values from a two-value pool (A, B, A in merge order); receiver = "
         "first input or a fresh empty Sequence; a second merge of freshly built copies in a permuted order. Oracle: sounding "
         "set = union of the inputs' sets; output well-formed without overlap per key; every pair of strictly overlapping "
         "input notes of a key lies inside one output note; every signature event that does not repeat the one in force "
-        "(over the tick-ordered union) is present at its tick and none is invented; duration = max input duration; "
+        "(over the tick-ordered union) is present at its tick and none is invented; the signature in force as a function of time read "
+        "from the output list equals that of the inputs laid over each other in merge order; duration = max input duration; "
         "(channel, pitch, on, off) list identical for the permuted order. Non-trivial: >= 2 inputs and a strictly "
         "overlapping same-key pair across inputs. Distinct by case digest.")
 ASSUMPTIONS = ["the velocity kept by a fused note is not part of the statement",
@@ -37,6 +39,18 @@ def _case(draw, size=1):
     for t in ks_ticks:
         metas[draw(st.integers(0, k - 1))].append(["ks", t, draw(st.one_of(st.sampled_from(["C", "G", "Db", "C#", "F#", "Gb", "B", "Cb"]),
                                                                        st.sampled_from(gens.KEYS)))])
+    if k >= 2 and (ts_ticks or ks_ticks) and draw(st.integers(0, 2)) == 0:
+        # several inputs carry a signature of one kind on the SAME tick (values from a two-value pool: A, B, A in merge order);
+        # the library's sort is documented as stable, so among equal-channel events the merge order decides which is in force
+        kind = draw(st.sampled_from([x for x, ticks in (("ts", ts_ticks), ("ks", ks_ticks)) if ticks]))
+        t = draw(st.sampled_from(ts_ticks if kind == "ts" else ks_ticks))
+        pool = draw(st.lists(st.tuples(st.integers(2, 5), st.sampled_from([4, 8])) if kind == "ts" else st.sampled_from(gens.KEYS),
+                             min_size=2, max_size=2))
+        for i in range(k):
+            metas[i] = [m for m in metas[i] if not (m[0] == kind and m[1] == t)]
+            if draw(st.integers(0, 3)) > 0:
+                v = draw(st.sampled_from(pool))
+                metas[i].append(["ts", t, v[0], v[1]] if kind == "ts" else ["ks", t, v])
     seqs = []
     for i in range(k):
         if draw(st.integers(0, 7)) == 0:
@@ -134,6 +148,9 @@ def check(case):
             if pt not in have:
                 out.fail(f"signature-lost:{kind}", f"{pt} in force-changing union {keep}, output has {have}")
                 break
+        # the signature in force as a function of time must be the one of the inputs laid over each other in merge order
+        if O.in_force(ev1, kind) != keep:
+            out.fail(f"signature-in-force:{kind}", f"inputs in merge order give {keep}, output list gives {O.in_force(ev1, kind)} (events {have})")
         src = [(e[0], (e[5], e[6]) if kind == O.TS else e[7]) for e in union if e[1] == kind]
         for pt in have:
             if pt not in src:
